@@ -466,7 +466,10 @@ def check(run: Run) -> None:
     # wsh(miniscript) spends: what the library's satisfier produces is judged by the specification's engine too (C15 has the full set)
     from . import c15
 
-    s3 = c15.record(run, rnd, False, evs, only=["or_d(andor(pk(A),pk(B),pkh(C)),pk(D))", "or_b(thresh(2,pk(A),a:pkh(B),s:pk(C)),s:pk(D))", "andor(or_b(pk(A),a:pkh(B)),pk(E),pk(D))", "and_v(v:pk(A),after(500000))", "and_v(v:pk(A),after(600000000))", "and_v(v:pk(A),older(10))", "or_d(pk(A),and_v(v:pk(B),older(4194305)))",
+    s3 = c15.record(run, rnd, False, evs, only=["or_d(andor(pk(A),pk(B),pkh(C)),pk(D))", "or_b(thresh(2,pk(A),a:pkh(B),s:pk(C)),s:pk(D))", "andor(or_b(pk(A),a:pkh(B)),pk(E),pk(D))", "and_v(v:pk(A),after(500000))", "and_v(v:pk(A),after(600000000))", "and_v(v:pk(A),older(10))",
+                                                # the two kinds of lock time meet at 500000000 (the first timestamp) and the two kinds of sequence lock at bit 22; the largest values of each
+                                                "and_v(v:pk(A),after(499999999))", "and_v(v:pk(A),after(500000000))", "and_v(v:pk(A),after(500000001))", "and_v(v:pk(A),after(2147483647))",
+                                                "and_v(v:pk(A),older(65535))", "and_v(v:pk(A),older(4194304))", "and_v(v:pk(A),older(4259839))", "and_v(v:pk(A),older(1))", "or_d(pk(A),and_v(v:pk(B),older(4194305)))",
                                                 "thresh(2,pk(A),s:pk(B),s:pk(C))", "andor(pk(A),older(100),and_v(v:pk(B),hash160(G)))", "or_i(multi(2,A,B),and_v(v:pk(C),after(700000)))",
                                                 "and_v(v:multi(2,A,B),older(5))"])
     keep = ("op", "tx", "prevouts", "idx", "flags", "ok", "ast", "script", "size", "reads_back", "reparses", "sigs", "pre", "produced", "stack", "max_ops", "max_items", "max_size")
